@@ -107,7 +107,7 @@ def _gen0(rng, tier):
 
 
 def gen(rng, tier):
-    return G.with_layouts(rng, _gen0(rng, tier), p_alt=0.12, p_lumped=0.1)
+    return G.with_decoys(rng, G.with_layouts(rng, _gen0(rng, tier), p_alt=0.12, p_lumped=0.1))
 
 
 def corpus():
@@ -139,6 +139,10 @@ def impl(case):
     import msmhelper as mh
     from implutil import build
     data = build(case['form'], case['trajs'], case.get('dtypes'), case.get('layout'))
+    if case.get('decoy'):
+        from implutil import reused_container
+        alt = reused_container(case['form'], case['decoy'], case['trajs'], case.get('dtypes'), lambda c: mh.md.estimate_waiting_times(c, case['S'], case['F']))
+        data = data if alt is None else alt
     if case['form'] == 'obj' or case.get('layout') == 'lumped':
         # the same object went through the OTHER analysis (and a re-estimate) before
         for pre in (mh.md.estimate_paths, mh.md.estimate_waiting_times):
